@@ -7,12 +7,12 @@
    and compares the replayed ConsensusState with the model after every restart.
    What is proved here holds for every log content: replay is a run of the same total function, so
    (1) it cannot panic where the live run did not and it re-establishes the lock invariant, (2) it
-   cannot sign anything that contradicts an earlier signature.  That replay of an intact log
-   reaches exactly the pre-crash state is, in the model, the determinism of [run] plus the
-   independence of the state from the signer; the latter is not mechanised and is watched on the
-   real code by the engine's replay-diverges monitor (partial, DESIGN.md C07). *)
+   cannot sign anything that contradicts an earlier signature, (3) it composes, and (4) replaying
+   an intact log rebuilds exactly the state before the crash - round, step, proposal, parts,
+   every vote set, the lock - whatever the signer file holds by then (the state machine's state
+   is independent of the signer record: Proofs/SignerIndep.v). *)
 From Coq Require Import List NArith ZArith Lia Bool.
-From AnnVerif Require Import Base.Res Base.Bytes Model.VoteSet Model.ValSet Model.Node Proofs.NodeProofs.
+From AnnVerif Require Import Base.Res Base.Bytes Model.VoteSet Model.ValSet Model.Node Proofs.NodeProofs Proofs.SignerIndep.
 Import ListNotations.
 Open Scope Z_scope.
 
@@ -42,3 +42,19 @@ Theorem c07_replay_composes :
   forall c a b n, run c (a ++ b) n = match run c a n with Ok n1 => run c b n1 | Err e => Err e | Panic w => Panic w end.
 Proof. exact run_app. Qed.
 Print Assumptions c07_replay_composes.
+
+(* (4) the node started a height from its durable parts with signer file s0 and handled the logged
+   inputs [ins], reaching n.  Restarted from the same durable parts with the signer file as the
+   crash left it (s1), replaying the same log reaches n again in every field but the signer
+   record - for every input sequence and every pair of signer states *)
+Theorem c07_replay_restores :
+  forall c h vs lc me s0 s1 ins n0 n,
+  init_node h vs lc me s0 = Ok n0 -> run c ins n0 = Ok n ->
+  exists n0' n' s', init_node h vs lc me s1 = Ok n0' /\ run c ins n0' = Ok n' /\ n' = set_sg n s'.
+Proof. exact replay_restores. Qed.
+Print Assumptions c07_replay_restores.
+
+(* and one input at a time: the same path, the same failure, the same state up to the signer *)
+Theorem c07_step_is_signer_independent : forall c i, obl (handle c i).
+Proof. exact obl_handle. Qed.
+Print Assumptions c07_step_is_signer_independent.
